@@ -275,3 +275,18 @@ def odd_shstrtab(rng, data, meta):
     if r < 0.75:
         return elfgen.patch(data, meta, "shdr", "sh_flags", hs[sx]["sh_flags"] | 0x800, sx)
     return elfgen.patch(data, meta, "shdr", "sh_type", rng.choice([0, 1, 2, 7]), sx)
+
+
+def dynamic_path_variants(rng, data, meta):
+    """.dynamic reachable two ways: section headers present but no SHT_DYNAMIC section (its header retyped) while the
+    PT_DYNAMIC segment stays; or the segment retyped while the section stays. Returns [data]"""
+    o = fileq.py_open("any", data)
+    hs = fileq.py_shdrs(o, data) if o else None
+    ps = fileq.py_phdrs(o, data) if o else None
+    out = []
+    ds = [k for k, h in enumerate(hs or []) if h and h["sh_type"] == 6]
+    dp = [j for j, p in enumerate(ps or []) if p and p["p_type"] == 2]
+    if ds and dp:
+        out.append(elfgen.patch(data, meta, "shdr", "sh_type", 1, ds[0]))
+        out.append(elfgen.patch(data, meta, "phdr", "p_type", 1, dp[0]))
+    return out
